@@ -11,7 +11,7 @@ def inst(name, function, harness, enforce, slices, loops, mutants, minob=50, tie
     if extra: d.update(extra)
     return d
 S_getBasis = S("Solver_getBasis.inc", SOLVER_HPP, r"SPxSolverBase<R>::getBasis\s*\(\s*VarStatus\s+row\[\]\s*,\s*VarStatus\s+col\[\]\s*,\s*const\s+int\s+rowsSize\s*,\s*const\s+int\s+colsSize\s*\)\s*const", [r"col\[i\]\s*=\s*basisStatusToVarStatus\(d\.colStatus\(i\)\)", r"return\s+status\(\);"])
-S_isBasisValid = S("Solver_isBasisValid.inc", SOLVER_HPP, r"bool\s+SPxSolverBase<R>::isBasisValid\s*\(\s*DataArray<VarStatus>\s+p_rows\s*,\s*DataArray<VarStatus>\s+p_cols\s*\)", [r"basisdim\s*!=\s*dim\(\)"])
+S_isBasisValid = S("Solver_isBasisValid.inc", SOLVER_HPP, r"bool\s+SPxSolverBase<R>::isBasisValid\s*\(\s*DataArray<VarStatus>\s+p_rows\s*,\s*DataArray<VarStatus>\s+p_cols\s*\)", [r"basisdim\s*!=\s*(dim\(\)|this->nRows\(\))"])
 S_setBasis = S("Solver_setBasis.inc", SOLVER_HPP, r"void\s+SPxSolverBase<R>::setBasis\s*\(\s*const\s+VarStatus\s+p_rows\[\]\s*,\s*const\s+VarStatus\s+p_cols\[\]\s*\)", [r"loadBasis\(ds\);", r"forceRecompNonbasicValue\(\);"])
 S_isDescValid = S("Basis_isDescValid.inc", BASIS_HPP, r"bool\s+SPxBasisBase<R>::isDescValid\s*\(\s*const\s+Desc&\s+ds\s*\)", [r"basisdim\s*!=\s*theLP->nCols\(\)"])
 
@@ -50,7 +50,7 @@ ibv_mut = [
  {"name": "fixed_rows_unchecked", "slice": "Solver_isBasisValid.inc", "find": "p_rows[row] == FIXED && this->lhs(row) != this->rhs(row)", "replace": "p_rows[row] == FIXED && this->lhs(row) != this->lhs(row)"},
  {"name": "lower_checks_rhs", "slice": "Solver_isBasisValid.inc", "find": "p_rows[row] == ON_LOWER && this->lhs(row) <= R(-infinity)", "replace": "p_rows[row] == ON_LOWER && this->rhs(row) <= R(-infinity)"},
  {"name": "skip_last_row", "slice": "Solver_isBasisValid.inc", "find": "for(int row = this->nRows() - 1; row >= 0; --row)", "replace": "for(int row = this->nRows() - 1; row > 0; --row)"},
- {"name": "count_off", "slice": "Solver_isBasisValid.inc", "find": "if(basisdim != dim())", "replace": "if(basisdim < dim())"},
+ {"name": "count_off", "slice": "Solver_isBasisValid.inc", "regex": True, "find": r"if\(basisdim != (dim\(\)|this->nRows\(\))\)", "replace": r"if(basisdim < \1)"},
  {"name": "undefined_col_ok", "slice": "Solver_isBasisValid.inc", "find": "if(p_cols[col] == UNDEFINED)\n            return false;", "replace": "if(p_cols[col] == UNDEFINED)\n            continue;"},
 ]
 insts = [
